@@ -9,7 +9,7 @@ PROPS_MODULE = "OxyModel.Props.C03"
 AUDIT = "OxyModel/Audit/C03.lean"
 THEOREMS = ["C03.C03_bucket_window", "C03.C03_set_window", "C03.C03_limiter_refines_set",
             "C03.C03_limiter_window", "C03.C03_5x_suffices", "C03.C03_5x_suffices_set",
-            "C03.C03_hypothesis_needed", "C03.C03_subsecond_forgets"]
+            "C03.C03_hypothesis_needed", "C03.C03_subsecond_forgets", "C03.C03_5x_needs_avg_le_period"]
 RACE = False
 JOBS = 8
 RULE = ("scenario = one rate set (1-3 periods from 1us to 1h, average 1..10^6, burst inside and outside burst<=5*average) "
@@ -19,7 +19,13 @@ RULE = ("scenario = one rate set (1-3 periods from 1us to 1h, average 1..10^6, b
 ASSUMPTIONS = [
     "request amounts are non-negative and all quantities fit in int64 (generator stays below 2^50 ns)",
     "the clock never steps backwards (frozen clock, only advanced)",
-    "'period/average' is read as the code's integer quotient timePerToken = max(1ns, period/average)",
+    "'period/average' is read as the code's integer quantum tpt = timePerToken = max(1 ns, floor(period/average)). The exact quotient "
+    "period/average is smaller by less than 1 ns, i.e. by a RELATIVE 1/floor(period/average) at most (0.6 % for 1000 ns / 7, up to ~100 % "
+    "when average lies in (period/2, period] where tpt = 1 ns), and for average > period[ns] the clamp makes tpt LARGER than the quotient; "
+    "every bound and every 'burst x (period/average)' of the statement is claimed with tpt in that place",
+    "'burst <= 5 x average suffices for periods >= 1 s' is proved with the extra condition average <= period in ns (at most one token per "
+    "ns, tpt not clamped); without it the clause is false of code and model alike (C03_5x_needs_avg_le_period: 1 s, 10^10/s, burst 5*10^10 "
+    "admits 10^11 in 11 s, bound 6.1*10^10 + 1)",
     "limiter-level bound (C03_limiter_window) assumes: distinct sources <= capacity, rates fixed (no per-request rate override), "
     "and RefillWithinTTL: burst*timePerToken <= 10*floor(maxPeriod/1s) s for every rate (an idle entry is kept for more than that long "
     "since its last access; sub-second max periods never satisfy it)",
@@ -143,6 +149,8 @@ MANIFEST = {
              "model on generated histories."),
     "note": ("Trusted: Lean kernel; propext/Classical.choice/Quot.sound; hand-written model validated on generated scenarios only; "
              "non-negative amounts, no int64 overflow, monotone clock; consumeRates atomic (C09). The limiter-level bound is claimed under "
-             "the statement's own conditions (sources <= capacity, burst refills within the entry lifetime: burst*tpt <= 10*floor(maxPeriod/1s) s)."),
+             "the statement's own conditions (sources <= capacity, burst refills within the entry lifetime: burst*tpt <= 10*floor(maxPeriod/1s) s). "
+             "period/average is read as tpt = max(1ns, floor(period/average)) (relative gap to the exact quotient <= 1/floor(period/average)); "
+             "'5x average suffices for periods >= 1 s' additionally needs average <= period[ns] (counterexample C03_5x_needs_avg_le_period)."),
     "technique": "Lean 4 proof (potential argument tpt*avail - lastRefresh; simulation limiter/bucket set) over executable model + differential correspondence with ratelimit.TokenLimiter",
 }
